@@ -819,7 +819,7 @@ fn replace_credential(c: &mut Case, old: &str, new: &str) {
 
 /// The scope rule on its own (unstable API): authenticators with arbitrary credential strings and
 /// instants through `prevalidate` + `get_string_to_sign`, crate vs model vs the rule as the property states it.
-fn c03_prevalidate_sweep(ctx: &mut Ctx) {
+pub fn c03_prevalidate_sweep(ctx: &mut Ctx) {
     let mut rng = ctx.rng.fork();
     let n = ctx.n(6000, 200_000);
     let region = "us-east-1";
